@@ -354,7 +354,7 @@ pub fn run(rep: &mut Report, tier: &str, seed: u64, shard: (u32, u32), replay: O
         return;
     }
     let mut rng = StdRng::seed_from_u64(seed ^ 0xc11 ^ ((shard.0 as u64) << 40));
-    let n: u64 = if tier == "thorough" { 300_000 } else { 8000 };
+    let n: u64 = if tier == "thorough" { 300_000 } else { 20_000 };
     let budget = Budget::new(n, if tier == "thorough" { 600.0 } else { 15.0 });
     let mut i = 0;
     while budget.left(i) {
